@@ -184,6 +184,78 @@ func init() {
 		body += "Definition skel_add : list string := " + coqStrList(skeleton(funcDecl(f, "SimpleQueue", "Add"))) + ".\n"
 		body += "Definition skel_wait : list string := " + coqStrList(skeleton(funcDecl(f, "SimpleQueue", "WaitForItem"))) + ".\n"
 		body += "Definition skel_pop : list string := " + coqStrList(skeleton(funcDecl(f, "SimpleQueue", "Pop"))) + ".\n"
+		// priority.go: is every exported method ONE critical section of the queue mutex, from its first to its last statement?
+		pf := parse("internal/queue/priority.go")
+		var rows []string
+		for _, m := range []string{"Add", "NextAll", "Next", "Size"} {
+			rows = append(rows, "("+coqStr(m)+", "+coqStr(critSection(funcDecl(pf, "PriorityQueue", m)))+")")
+		}
+		body += "\n(* priority.go: per exported method, the mutex operations in source order, and whether the method is one critical\n   section from its first to its last statement (\"whole\") *)\n"
+		body += "Definition pq_critical : list (string * string) := [" + strings.Join(rows, "; ") + "].\n"
+		body += "Definition skel_pq_nextall : list string := " + coqStrList(skeleton(funcDecl(pf, "PriorityQueue", "NextAll"))) + ".\n"
 		write("Queue.v", body)
 	})
+}
+
+// critSection says "whole" when the body starts with X.Lock()/X.RLock(), the matching unlock is either deferred right
+// after it or is the last statement (possibly followed by a bare return), and no other lock/unlock occurs in between;
+// "partial" otherwise.
+func critSection(fd *ast.FuncDecl) string {
+	if fd == nil || fd.Body == nil || len(fd.Body.List) < 2 {
+		return "missing"
+	}
+	call := func(st ast.Stmt) (recv, name string) {
+		var e ast.Expr
+		switch x := st.(type) {
+		case *ast.ExprStmt:
+			e = x.X
+		case *ast.DeferStmt:
+			e = x.Call
+		}
+		if c, ok := e.(*ast.CallExpr); ok {
+			if se, ok := c.Fun.(*ast.SelectorExpr); ok {
+				return exprString(se.X), se.Sel.Name
+			}
+		}
+		return "", ""
+	}
+	l := fd.Body.List
+	mu, first := call(l[0])
+	if first != "Lock" && first != "RLock" {
+		return "partial"
+	}
+	unlock := "Unlock"
+	if first == "RLock" {
+		unlock = "RUnlock"
+	}
+	count := 0
+	ast.Inspect(fd.Body, func(n ast.Node) bool {
+		if c, ok := n.(*ast.CallExpr); ok {
+			if se, ok := c.Fun.(*ast.SelectorExpr); ok && exprString(se.X) == mu {
+				switch se.Sel.Name {
+				case "Lock", "RLock", "Unlock", "RUnlock":
+					count++
+				}
+			}
+		}
+		return true
+	})
+	if count != 2 {
+		return "partial"
+	}
+	if _, isDefer := l[1].(*ast.DeferStmt); isDefer {
+		if r, n := call(l[1]); r == mu && n == unlock {
+			return "whole"
+		}
+	}
+	last := l[len(l)-1]
+	if rs, ok := last.(*ast.ReturnStmt); ok && len(rs.Results) == 0 && len(l) >= 3 {
+		last = l[len(l)-2]
+	}
+	if _, isDefer := last.(*ast.DeferStmt); !isDefer {
+		if r, n := call(last); r == mu && n == unlock {
+			return "whole"
+		}
+	}
+	return "partial"
 }
